@@ -561,6 +561,35 @@ pub fn history(bytes: &[u8]) -> (Vec<Snippet>, Vec<&'static str>) {
                 labels.push("import_failing_module");
                 failed_before = failed_before || !guarded;
             }
+            17 => {
+                // a global of main named like a built-in (a variable or a function), defined in one
+                // snippet and read in a later one: a definition persists, whatever its name
+                let name = g.rd.pick_str(&["clock", "Nil", "Bool", "BuiltIn", "Method", "BuiltInMethod"]);
+                let as_fn = g.rd.flag();
+                let mine = Expr::str(&format!("my own {}", name));
+                let define = if as_fn {
+                    Stmt::new(StmtKind::Fn(Rc::new(FnDef {
+                        name: std::cell::RefCell::new(name.to_string()),
+                        params: vec![],
+                        body: Body::Block(vec![Stmt::new(StmtKind::Return(Some(mine)))]),
+                        kind: FnKind::Function,
+                    })))
+                } else {
+                    Stmt::var(name, Some(mine))
+                };
+                v.push(Snippet::Code(vec![define], "code"));
+                match g.rd.below(3) {
+                    0 => {}
+                    1 => v.push(Snippet::Code(vec![Stmt::print(Expr::str("between"))], "code")),
+                    _ => {
+                        v.push(Snippet::Code(vec![Stmt::new(StmtKind::Throw(Expr::str("fails between")))], "code"));
+                        failed_before = true;
+                    }
+                }
+                let read = if as_fn { Expr::callv(name, vec![]) } else { Expr::var(name) };
+                v.push(Snippet::Code(vec![Stmt::print(read)], "redefined_builtin_probe"));
+                labels.push("redefined_builtin_probe");
+            }
             14 | 15 => {
                 // a module that is missing (mc) or does not compile (md) when first imported: the
                 // failed import must leave nothing behind, so that the same statement succeeds once
@@ -800,7 +829,7 @@ impl Property for C15 {
             ("snippets", 30_000),
             ("gen:compile_error", 2_000),
             ("gen:reset", 1_000),
-            ("gen:throw_in_fiber", 300), ("gen:probe_waiting_fiber", 500),
+            ("gen:throw_in_fiber", 300), ("gen:probe_waiting_fiber", 500), ("gen:redefined_builtin_probe", 1_000),
             ("gen:throw_in_try_finally", 300),
             ("gen:probe_after_failure", 1_000),
             ("gen:import", 2_000), ("gen:import_late", 2_000), ("gen:import_failing_module", 1_500), ("gen:provide_module", 1_000),
